@@ -189,7 +189,12 @@ TSet == /\ IsEvent("set")
         /\ SetSamplers(Ev.line)
         /\ Consume /\ UNCHANGED <<pidmap, chosen>>
 
-TNext == /\ \/ Silent \/ TCall \/ TSample \/ TModel \/ TLoss \/ TFault \/ TCkpt \/ TRet \/ TRaise \/ TIdle \/ TDisk
+(* C09: the four combinations of the samplers / scheduler constructor arguments *)
+TCtor == /\ IsEvent("ctor")
+         /\ Ev.outcome = CtorOutcome(Ev.samplers, Ev.scheduler)
+         /\ Consume /\ UNCHANGED <<vars, pidmap, chosen>>
+
+TNext == /\ \/ TCtor \/ Silent \/ TCall \/ TSample \/ TModel \/ TLoss \/ TFault \/ TCkpt \/ TRet \/ TRaise \/ TIdle \/ TDisk
             \/ TMkCkpt \/ TRestore \/ TSet
          /\ UNCHANGED K
 
@@ -241,6 +246,7 @@ Diag ==
                         <<"disk-generator", Ev.rng = disk[1].rng>>, <<"disk-sampler-names", Ev.namesok>> >>)
               \cup RowsDiag(Ev.rows, disk[1].hist)
          [] Ev.e = "disk" /\ pc \in {"idle", "raised"} /\ disk = None -> {"no-checkpoint-expected"}
+         [] Ev.e = "ctor" -> {"constructor-exactly-one-of"}
          [] Ev.e = "raise" -> {"exception-does-not-fit:" \o pc}
          [] Ev.e = "ret" -> {"return-does-not-fit:" \o pc}
          [] OTHER -> {"event-does-not-fit:" \o pc}
